@@ -59,6 +59,7 @@ class Model:
         self.items = {}      # key -> dict(value, flags, cas (None = unknown), ts, ttl, deadline (None or absolute), hist=set of CAS carried, counter_origin)
         self.now = 0
         self.unknown = set()
+        self.limit = 1048576  # item size limit of the replay driver (`limit <n>` in the session configuration)
     def live(self, k):
         it = self.items.get(k)
         if it is None: return None
@@ -91,6 +92,8 @@ def run_history(ops, config=(), stop_at_first=True):
     Returns None if the real code agrees with the model everywhere, else a dict describing the first mismatch."""
     s = Session(config)
     m = Model()
+    for c in config:
+        if c.startswith('limit '): m.limit = int(c.split()[1])
     issued = {}   # key -> list of CAS values seen for it (for 'stale')
     try:
         for idx, op in enumerate(ops):
@@ -108,6 +111,7 @@ def run_history(ops, config=(), stop_at_first=True):
                 c = olds[0] if olds else 0xdead
             op['cas_value'] = c
             fr = frame(op)
+            op['_body_len'] = len(fr) - 24
             out = s.send('feed ' + fr.hex())
             resp = None; silent = False
             for e in out:
@@ -168,6 +172,11 @@ def store_item(m, k, value, flags, ttl, resp, issued, lifetime_new):
 
 def check_step(m, op, cas, resp, silent, issued):
     o = op['op']; k = op.get('key', b'')
+    if op.get('_body_len', 0) > m.limit:
+        # C13: refused with 'too large', stores or changes nothing (the model state stays as it is)
+        if resp is None: raise Mismatch('%s with a %d-byte body under a %d-byte limit: a "too large" response is required, got none (C13)' % (o, op['_body_len'], m.limit))
+        if resp['status'] != 0x0003: raise Mismatch('%s with a %d-byte body under a %d-byte limit: status 0x%04x, required 0x0003 (C13)' % (o, op['_body_len'], m.limit, resp['status']))
+        return
     if o == 'flush' and not op.get('delay'):
         m.unknown.clear()
     if k in m.unknown and o not in ('flush', 'noop', 'version'):
@@ -307,7 +316,22 @@ def boundary_histories():
         H.append([dict(op='tick', n=100), s(exp=10), dict(op='tick', n=50), dict(op='flush', delay=5, quiet=q), dict(op='tick', n=1), dict(op='get', key=K)])
         H.append([s(), s(), dict(op='set', key=J, value=b'x', cas=2**64 - 1, quiet=q), s(), s(), s(), dict(op='set', key=K, value=b'LOST', cas='stale', quiet=q), dict(op='get', key=K)])
         H.append([s(), s(), dict(op='set', key=J, value=b'x', cas=2**64 - 2, quiet=q), s(), s(), s(), s(), dict(op='set', key=K, value=b'LOST', cas='stale', quiet=q), dict(op='get', key=K)])
+        # a SMALL client-chosen CAS stored on an absent key must not pull the counter back below values already issued
+        for small in (1, 2, 3):
+            H.append([s(), s(), s(), s(), dict(op='set', key=J, value=b'x', cas=small, quiet=q), s(), s(), s(), s(), dict(op='set', key=K, value=b'LOST', cas='stale', quiet=q), dict(op='get', key=K)])
         H.append([dict(op='set', key=K, value=b'v', cas=2**64 - 1), dict(op='get', key=K), dict(op='set', key=K, value=b'w', cas=2**64 - 1, quiet=q), dict(op='get', key=K)])
+    return H
+
+def limit_histories():
+    """C13 under `limit 1024`: an oversized request of every storing opcode is refused and changes nothing"""
+    K = b'k'; J = b'j'
+    big = b'B' * 2000
+    H = []
+    for q in (False, True):
+        for o in ('set', 'add', 'replace', 'append', 'prepend'):
+            H.append([dict(op='set', key=K, value=b'small', flags=5), dict(op=o, key=K, value=big, quiet=q), dict(op='get', key=K), dict(op=o, key=J, value=big, quiet=q), dict(op='get', key=J),
+                      dict(op='set', key=K, value=b'x' * 1000), dict(op='get', key=K), dict(op='set', key=K, value=b'y' * 1024, quiet=q), dict(op='get', key=K)])
+        H.append([dict(op='set', key=K, value=b'7'), dict(op='set', key=K, value=big, cas='cur', quiet=q), dict(op='get', key=K), dict(op='incr', key=K, delta=1), dict(op='get', key=K)])
     return H
 
 def random_history(rng, n=40):
@@ -332,6 +356,13 @@ def search(seed=0, n_random=30, config=()):
         n += 1
         r = run_history(h, config)
         if r: return r, n
+    if not any(c.startswith('limit ') for c in config):
+        for h in limit_histories():
+            n += 1
+            r = run_history(h, tuple(config) + ('limit 1024',))
+            if r:
+                r['config'] = list(config) + ['limit 1024']
+                return r, n
     rng = random.Random(seed)
     for _ in range(n_random):
         n += 1
